@@ -1298,8 +1298,24 @@ class Interp:
                               if isinstance(v, ast.FormattedValue)))
 
     def _e_BoolOp(self, e, st, act):
-        vals = [self._eval(v, st, act) for v in e.values]
-        return _boolop("and" if isinstance(e.op, ast.And) else "or", vals)
+        # short-circuit: a later operand is evaluated only when the earlier ones did not settle
+        # the result - what it calls / stores happens under that condition
+        is_and = isinstance(e.op, ast.And)
+        vals = []
+        cur = st
+        for v in e.values:
+            val = self._eval(v, cur, act)
+            vals.append(val)
+            tc = truth_const(val)
+            if tc is not None and tc != is_and:
+                break                      # settled: the remaining operands are never evaluated
+            if v is not e.values[-1]:
+                cur = cur.fork(val if is_and else ("not", val))
+        if cur is not st:
+            for k_, v_ in cur.env.items():     # names bound inside operands (walrus)
+                if st.env.get(k_) is not v_ and k_ not in st.env:
+                    st.env[k_] = v_
+        return _boolop("and" if is_and else "or", vals)
 
     def _e_UnaryOp(self, e, st, act):
         v = self._eval(e.operand, st, act)
